@@ -181,7 +181,7 @@ func bodyMulti(c *hk.Ctx, prop string) {
 			m.specByClass[t.Class] = t
 			classes[t.Class] = yamlTaskClass(t)
 		}
-		if prop == "C06" && c.W(4, "destroy-hook") == 3 {
+		if (prop == "C06" || prop == "C04") && c.W(4, "destroy-hook") == 3 {
 			// a hook task run at DESTROY
 			t := &taskSpec{Role: "cleanup", Class: fmt.Sprintf("cls%chook", 'a'+k), Host: wf.Tasks[0].Host, Critical: false, Mode: "hook", Start: "ok", OnEvent: map[string]string{}, Hook: "DESTROY"}
 			wf.Tasks = append(wf.Tasks, t)
@@ -262,8 +262,9 @@ func bodyMulti(c *hk.Ctx, prop string) {
 // ---- request helpers ----
 
 func (m *multi) newEnv(wf string) *envRec {
-	e := &envRec{Idx: len(m.envs), Wf: wf, owned: map[string]bool{}, inc: m.rpc().inc}
+	e := &envRec{Wf: wf, owned: map[string]bool{}, inc: m.rpc().inc}
 	m.mu.Lock()
+	e.Idx = len(m.envs) // under the lock: clients create environments concurrently
 	m.envs = append(m.envs, e)
 	m.mu.Unlock()
 	r := &request{Op: "NEW " + wf, Env: e.Idx}
@@ -479,6 +480,45 @@ func (m *multi) runOwnership() {
 							e.Destroyed, e.DestroyErr = true, ""
 							m.mu.Unlock()
 						}
+					} else if m.prop == "C04" && c.W(4, "create-during-teardown") == 3 {
+						// another operator asks for the same detectors while this environment is being
+						// torn down: refused as long as it is listed, admitted afterwards
+						var wg3 simsync.WaitGroup
+						wg3.Add(1)
+						c.S.Go(fmt.Sprintf("client%d-create-during-teardown", cl), func() {
+							defer wg3.Done()
+							simrt.Sleep(time.Duration(c.W(120, "create-after-ms")) * time.Millisecond)
+							e2 := m.newEnv(e.Wf)
+							m.checkObservation(m.observe())
+							if e2.Created {
+								c.Count("probe.created_during_or_after_teardown")
+								m.destroy(e2, true, false, true)
+							}
+						})
+						d := m.destroy(e, force, keep, allow)
+						wg3.Wait()
+						// The detector check of a creation is the first thing it does. If the teardown had
+						// begun before that request was made and ended well after it, the holder was still
+						// registered at that moment: the creation must have been refused.
+						// (the environment leaves the registry when its teardown is complete, which the core
+						// announces with an environment event; the request returns later, after the kills)
+						var unregisteredAt time.Duration = -1
+						evMu.Lock()
+						for _, ev := range events {
+							if !ev.runEv && ev.env == e.ID && ev.state == "DONE" && ev.msg == "environment teardown complete" {
+								unregisteredAt = ev.at
+							}
+						}
+						evMu.Unlock()
+						m.mu.Lock()
+						for _, r := range m.sc.Requests {
+							if unregisteredAt >= 0 && strings.HasPrefix(r.Op, "NEW") && r.done && r.Err == "" && r.Env > e.Idx && m.envs[r.Env].Wf == e.Wf &&
+								d.invAt <= r.invAt && unregisteredAt >= r.invAt+20*time.Millisecond {
+								c.Violate("detector-exclusive", "detector-in-two-environments:created-during-teardown-of-the-holder",
+									"environment %d (%s) was admitted at %v while environment %d, holding the same detectors, was being torn down (from %v, registered until %v)", r.Env, e.Wf, r.invAt, e.Idx, d.invAt, unregisteredAt)
+							}
+						}
+						m.mu.Unlock()
 					} else {
 						m.destroy(e, force, keep, allow)
 					}
